@@ -85,7 +85,12 @@ class World:
         if name == "ckl":
             return ModuleRef("ckl", {"__pkg__": True})
         if name not in self.repo.modules:
-            raise OutOfSubset(f"import of unknown module {name}")
+            # an unknown host module: opaque (calling into it is default-deny: effectful / out-of-subset)
+            m = self.modules.get(name)
+            if m is None:
+                m = ModuleRef(name, external=True)
+                self.modules[name] = m
+            return m
         m = self.modules.get(name)
         if m is None:
             m = ModuleRef(name, {"__name__": name})
@@ -322,7 +327,9 @@ class World:
         if self.is_exception_class(v.cls) and v.cls.builtin:
             return interp.fresh_str("excmsg")
         if interp.repr_mode == "opaque":
-            return interp.fresh_str("repr")
+            r = interp.fresh_str("repr")
+            r.opaque = True
+            return r
         m = v.cls.lookup("__str__") if which == "__str__" else None
         if not isinstance(m, PyFunc):
             m = v.cls.lookup("__repr__")
@@ -823,6 +830,8 @@ class World:
             if name == "values" and obj.kind == "values":
                 pass
             it.throw("AttributeError", f"'dict_{obj.kind}' object has no attribute '{name}'", node)
+        if isinstance(obj, (PyFunc, Builtin)) and name == "__name__":
+            return obj.name.split(".")[-1]
         if isinstance(obj, BoundMethod) or isinstance(obj, BoundMethod2) or isinstance(obj, (PyFunc, Builtin)):
             it.throw("AttributeError", f"'method' object has no attribute '{name}'", node)
         if obj is None:
@@ -1000,6 +1009,13 @@ class World:
                 if not lst.is_sym() and isinstance(idx, int):
                     lst.items.insert(idx, x)
                     return None
+                if not lst.is_sym():
+                    # symbolic position into a concrete spine: fork over the len+1 insertion points
+                    ln = len(lst.items)
+                    aa, _ = it.slice_bounds(idx, None, ln)
+                    k2 = it.path.choose(ln + 1, [aa == p for p in range(ln + 1)])
+                    lst.items.insert(k2, x)
+                    return None
                 s = it.list_seq(lst, lst.kind, n)
                 aa, _ = it.slice_bounds(idx, None, mk_int(z3.Length(s)))
                 tmp = lst if lst.is_sym() else PList(sym=s, kind=lst.kind)
@@ -1113,6 +1129,9 @@ class World:
                 return r
         if mod.name == "math":
             return self.math_attr(it, name, node)
+        if mod.name == "operator" and name in _OPERATOR:
+            op = _OPERATOR[name]
+            return Builtin("operator." + name, lambda it_, a, k, n: it_.binop(op(), a[0], a[1], n))
         if mod.name == "datetime":
             if name == "datetime":
                 return DATETIME_CLASS(self)
@@ -1126,6 +1145,42 @@ class World:
             return self.import_module("os.path")
         if mod.name == "re" and name == "error":
             return self.builtin_class("re.error")
+        if mod.name == "re" and name == "compile":
+            def f(it, a, k, n):
+                if not is_strlike(a[0]):
+                    it.guard(False, "TypeError", n, "first argument must be string or compiled pattern")
+                if isinstance(a[0], str):
+                    import re as _re
+                    try:
+                        _re.compile(a[0])
+                    except _re.error as e:
+                        it.throw("re.error", str(e), n)
+                    except (OverflowError, RecursionError) as e:
+                        it.throw(type(e).__name__, str(e), n)
+                    return Obj(self.builtin_classes["Pattern"], {"pattern": a[0]})
+                c = it.path.choose(3)
+                if c == 1:
+                    it.throw("re.error", "bad pattern", n)
+                if c == 2:
+                    it.throw("OverflowError", "repetition count too large", n)
+                return Obj(self.builtin_classes["Pattern"], {"pattern": a[0]})
+            return Builtin("re.compile", f)
+        if mod.name == "re" and name == "match":
+            def f(it, a, k, n):
+                if not is_strlike(a[1]):
+                    it.guard(False, "TypeError", n, "expected string or bytes-like object")
+                return None if it.path.choose(2) == 0 else SElem(z3.Int(it.fresh("match")), "match")
+            return Builtin("re.match", f)
+        if mod.name == "re" and name == "split":
+            def f(it, a, k, n):
+                if not is_strlike(a[1]):
+                    it.guard(False, "TypeError", n, "expected string or bytes-like object")
+                # abstract result: one or two parts (the natives only copy the parts into values)
+                parts = [it.fresh_str("part") for _ in range(1 + it.path.choose(2))]
+                for p_ in parts:
+                    it.path.assume(z3.Length(p_.z) <= 2, check=False)
+                return PList(parts)
+            return Builtin("re.split", f)
         if mod.name == "sys" and name in ("stdout", "stdin", "stderr"):
             return Obj(self.builtin_classes["file"], {"_std": name})
         if mod.name == "os" and name in ("sep", "linesep", "pathsep"):
@@ -1252,6 +1307,8 @@ class World:
 
 _MISSING = object()
 World.MISSING = _MISSING
+_OPERATOR = {"add": ast.Add, "sub": ast.Sub, "mul": ast.Mult, "truediv": ast.Div, "floordiv": ast.FloorDiv, "mod": ast.Mod,
+             "pow": ast.Pow, "and_": ast.BitAnd, "or_": ast.BitOr, "xor": ast.BitXor, "lshift": ast.LShift, "rshift": ast.RShift}
 
 
 class BytesVal:
